@@ -150,7 +150,7 @@ class History:
         h = self.pick()
         if h is None:
             return
-        ops = ["copy", "copy0", "mul", "rmul", "div", "normalize", "merge", "add", "add_copy", "json", "getitem", "sub"]
+        ops = ["copy", "copy0", "mul", "rmul", "div", "normalize", "merge", "add", "add_copy", "json", "getitem", "sub", "sum_of_one"]
         if h.ndim >= 2:
             ops += ["projection", "projection", "select_int", "select_slice", "accumulate"]
         if type(h).__name__ == "Histogram2D":
@@ -174,6 +174,12 @@ class History:
             elif op == "merge":
                 ax = rng.randrange(h.ndim) if rng.random() < 0.7 else None
                 r = h.merge_bins(rng.randint(1, 3), axis=ax)
+            elif op == "sum_of_one":
+                # sum() over a single histogram (or 0 + h) is arithmetic like any other: a histogram of its own
+                r = rng.choice([lambda: sum([h]), lambda: 0 + h, lambda: np.int64(0) + h, lambda: 0.0 + h])()
+                if r is h:
+                    self.ctx.rec.fail(prop="C12", monitor="C12.world.bystander", op="sum([h]) / 0 + h", symptom="an arithmetic result is the operand itself (not independent of it)",
+                                      diff=["identity"], detail={"class": type(h).__name__})
             elif op == "add_copy":
                 r = h + h.copy()
             elif op == "add":
@@ -374,7 +380,7 @@ class History:
         rec = self.ctx.rec
         kinds = ["iadd_incompatible", "iadd_other_dim", "iadd_nonhist", "iadd_array", "imul_negative", "imul_hist", "idiv_hist", "isub_more",
                  "fill_n_weight_shape", "fill_n_cols", "set_dtype_invalid", "set_dtype_lossy", "fill_bad_weight", "merge_bad_amount",
-                 "mul_array", "rdiv", "array_after_free_block"]
+                 "mul_array", "rdiv", "array_after_free_block", "idiv_zero", "normalize_empty_inplace", "fill_weight_square_overflow"]
         if h.ndim >= 2:
             kinds += ["projection_bad", "select_bad", "fill_wrong_dim"]
         else:
@@ -407,6 +413,19 @@ class History:
                     h += np.ones(h.shape)
                 elif k == "mul_array":
                     _ = h * np.ones(h.shape)
+                elif k == "fill_weight_square_overflow":
+                    # a weight that fits the content type while its square does not: refused as a whole or entered as a whole
+                    must = False
+                    v = self.values_for(h, 1)[0]
+                    h.fill(float(v[0]) if h.ndim == 1 else v, rng.choice([2**32, 2**40, np.int64(2**32)]))
+                elif k == "idiv_zero":
+                    must = False  # inf / NaN contents or a refusal: either way nothing half done when it raises
+                    h /= rng.choice([0, 0.0, np.float64(0.0), np.int32(0)])
+                elif k == "normalize_empty_inplace":
+                    must = False
+                    e_ = h.copy(include_frequencies=False)
+                    self.add(e_, sources=(h,))
+                    e_.normalize(inplace=True)
                 elif k == "array_after_free_block":
                     # a block with free arithmetics that is left by an exception: afterwards the strict rules hold again
                     from physt.config import config
